@@ -84,6 +84,7 @@ func run(seed int64, n int, dir string, _ []string) {
 		base := filepath.Join(scratch, fmt.Sprintf("c10-%d", r))
 		must(os.MkdirAll(base, 0o755))
 		tabs := make([]table, ntab)
+		symlinked := make([]bool, ntab)
 		var prog strings.Builder
 		for i := range tabs {
 			var sb strings.Builder
@@ -93,7 +94,7 @@ func run(seed int64, n int, dir string, _ []string) {
 				fmt.Fprintf(&sb, "%d,%s\n", k, g.Pick("a", "b", "x y", "\"q,r\"", "", "12"))
 			}
 			tabs[i] = table{fmt.Sprintf("t%d.csv", i), []byte(sb.String())}
-			must(os.WriteFile(filepath.Join(base, tabs[i].name), tabs[i].old, 0o644))
+			symlinked[i] = g.Intn(3) == 0 // the table path may be a symbolic link to a file elsewhere
 			switch g.Intn(3) {
 			case 0:
 				fmt.Fprintf(&prog, "UPDATE `%s` SET v = 'u%d' WHERE id %% 2 = 0; ", tabs[i].name, r)
@@ -113,8 +114,14 @@ func run(seed int64, n int, dir string, _ []string) {
 			d := filepath.Join(scratch, fmt.Sprintf("c10-%d-%s", r, name))
 			_ = os.RemoveAll(d)
 			must(os.MkdirAll(d, 0o755))
-			for _, t := range tabs {
-				must(os.WriteFile(filepath.Join(d, t.name), t.old, 0o644))
+			for i, t := range tabs {
+				if symlinked[i] {
+					must(os.MkdirAll(filepath.Join(d, "store"), 0o755))
+					must(os.WriteFile(filepath.Join(d, "store", t.name), t.old, 0o644))
+					must(os.Symlink(filepath.Join("store", t.name), filepath.Join(d, t.name)))
+				} else {
+					must(os.WriteFile(filepath.Join(d, t.name), t.old, 0o644))
+				}
 			}
 			return d
 		}
@@ -195,7 +202,7 @@ func run(seed int64, n int, dir string, _ []string) {
 					o.Law("not_recoverable_after_crash", map[string]interface{}{"crash_at": spec, "table": t.name, "rc": rc, "out": out})
 				}
 			}
-			o.NonTrivial(fmt.Sprintf("%s:%d:%s", pt, ntab, strings.Join(states, ",")))
+			o.NonTrivial(fmt.Sprintf("%s:%d:%s:%v", pt, ntab, strings.Join(states, ","), symlinked))
 			_ = os.RemoveAll(d)
 		}
 		_ = os.RemoveAll(base)
